@@ -864,6 +864,35 @@ class Rewriter:
         self.note('format!(string args)->vx::catN', n)
         return code
 
+    # ---- R11: X.map_err(|e| BODY) -> match X { Ok(v) => Ok(v), Err(e) => Err(BODY) }   (definition of Result::map_err)
+    #          X.ok_or_else(|| BODY) -> match X { Some(v) => Ok(v), None => Err(BODY) }   (definition of Option::ok_or_else)
+    def map_err_match(self, code):
+        n = 0
+        while True:
+            m = mask(code)
+            mm = re.search(r'\.\s*(map_err|ok_or_else)\s*\(\s*\|', m)
+            if not mm:
+                break
+            kind = mm.group(1)
+            dot = mm.start()
+            bar1 = mm.end() - 1
+            bar2 = m.index('|', bar1 + 1)
+            op = m.rfind('(', 0, bar1 + 1)
+            cp = match_close(m, op)
+            param = code[bar1 + 1:bar2].strip()
+            body = code[bar2 + 1:cp].strip()
+            rs = recv_start(m, dot)
+            recv = code[rs:dot].strip()
+            if kind == 'map_err':
+                p = param if param not in ('', '_', '_e') else '_e'
+                rep = '(match %s { Ok(v__) => Ok(v__), Err(%s) => Err(%s) })' % (recv, p, body)
+            else:
+                rep = '(match %s { Some(v__) => Ok(v__), None => Err(%s) })' % (recv, body)
+            code = code[:rs] + rep + code[cp + 1:]
+            n += 1
+        self.note('map_err/ok_or_else closure -> match (std definition)', n)
+        return code
+
     # ---- R8: local `const NAME: &[&str] = &[...]` -> `let NAME: Vec<&'static str> = vec![...]`
     def local_const_slices(self, code):
         n = 0
@@ -885,6 +914,8 @@ class Rewriter:
         code = self.closure_underscore(code)
         if opts.get('fmtcat'):
             code = self.format_cat(code, opts['fmtcat'])
+        if opts.get('maperr'):
+            code = self.map_err_match(code)
         code = self.let_chains(code)
         code = self.local_const_slices(code)
         if not opts.get('no_while_let'):
@@ -1024,7 +1055,7 @@ METHOD_RULES = [
 ] + [
     (r'\.\s*%s\s*\(' % m, 'vx_%s' % m, 'rename', 'str.%s->vx_%s' % (m, m))
     for m in ('starts_with', 'ends_with', 'contains', 'find', 'rfind', 'strip_prefix', 'trim', 'trim_start', 'trim_end',
-              'trim_end_matches', 'trim_start_matches', 'to_uppercase', 'to_lowercase', 'split_at', 'join')
+              'trim_end_matches', 'trim_start_matches', 'to_uppercase', 'to_lowercase', 'split_at', 'join', 'insert', 'remove')
 ]
 
 
